@@ -22,6 +22,7 @@ import (
 
 	"github.com/olive-io/bpmn/schema"
 	"github.com/olive-io/bpmn/v2/pkg/data"
+	"github.com/olive-io/bpmn/v2/pkg/tracing"
 )
 
 type nextTaskActionMessage struct {
@@ -55,7 +56,8 @@ func newTask(element schema.FlowNodeInterface, activityType ActivityType) constr
 	}
 }
 
-func (task *genericTask) run(ctx context.Context) {
+func (task *genericTask) run(ctx context.Context, sender tracing.ISenderHandle) {
+	defer sender.Done()
 	for {
 		select {
 		case msg := <-task.mch:
@@ -70,7 +72,9 @@ func (task *genericTask) run(ctx context.Context) {
 					return
 				}
 			case nextTaskActionMessage:
+				requestSender := task.tracer.RegisterSender()
 				go func() {
+					defer requestSender.Done()
 					task.active.Add(1)
 					defer task.active.Add(-1)
 
@@ -118,7 +122,9 @@ func (task *genericTask) run(ctx context.Context) {
 
 func (task *genericTask) NextAction(ctx context.Context, flow Flow) chan IAction {
 	if task.active.CompareAndSwap(0, 1) {
-		go task.run(ctx)
+		// the task's loop and its request goroutines send traces: the tracer must not
+		// terminate while they may still do so
+		go task.run(ctx, task.tracer.RegisterSender())
 	}
 
 	response := make(chan IAction, 1)
